@@ -144,7 +144,7 @@ func (c *CPU) formatInstructionMode(mode byte, w0 byte, w1 byte, w2 byte, w3 byt
 		arg = fmt.Sprintf("#$%02x,#$%02x", w2, w1) // XXX - verify it!
 	case m_PC_Relative: // rel8        - p. 308 or 5.18 (BRA)
 		w216 := uint16(w1)
-		if w2 < 0x80 {
+		if w1 < 0x80 {
 			dest := c.PC + 2 + w216
 			arg = fmt.Sprintf("$%02x ($%04x +)", w216, dest)
 		} else {
@@ -315,7 +315,7 @@ func (c *CPU) formatInstructionModeTo(w io.Writer, mode byte, w0 byte, w1 byte, 
 		n, _ = fmt.Fprintf(w, "#$%02x,#$%02x", w2, w1) // XXX - verify it!
 	case m_PC_Relative: // rel8        - p. 308 or 5.18 (BRA)
 		w216 := uint16(w1)
-		if w2 < 0x80 {
+		if w1 < 0x80 {
 			dest := c.PC + 2 + w216
 			n, _ = fmt.Fprintf(w, "$%02x ($%04x +)", w216, dest)
 		} else {
